@@ -40,6 +40,9 @@ func (ex *Exec) hashSum(hs HashState) *Term {
 			ex.unsupported("xxhash over %T", e)
 		}
 	}
+	if ex.hashBits > 0 {
+		args = coalesceLE64(args)
+	}
 	for _, a := range args {
 		if a.Sort.K == SInt {
 			shape.WriteString("i")
@@ -52,6 +55,15 @@ func (ex *Exec) hashSum(hs HashState) *Term {
 		ret = IntSort
 	}
 	name := fmt.Sprintf("xxh64[%d:%s]", len(args), shape.String())
+	if ex.hashBits > 0 && !ex.intMode {
+		// bounded hash model: the hash ranges over [0, 2^hashBits)
+		nb := BV(ex.hashBits)
+		name = fmt.Sprintf("%s/%d", name, ex.hashBits)
+		if len(args) == 0 {
+			return ex.ts.ZeroExt(ex.ts.Var(name, nb), 64)
+		}
+		return ex.ts.ZeroExt(ex.ts.UF(name, nb, args...), 64)
+	}
 	if len(args) == 0 {
 		return ex.ts.Var(name, ret)
 	}
@@ -104,4 +116,62 @@ func init() {
 		}
 		return ex.hashSum(HashState{Elems: elems})
 	})
+}
+
+func init() {
+	// vxHashBits(n): xxhash results range over [0, 2^n) (a stated bound of the harness)
+	vxAPI["vxHashBits"] = func(ex *Exec, fr *Frame, fn *ssa.Function, args []Value, site ssa.Instruction) Value {
+		ex.hashBits = argInt(ex, args[0])
+		ex.assumptions[fmt.Sprintf("hash values range over [0, 2^%d): every joint residue pattern modulo the table capacities in the bound is represented", ex.hashBits)] = true
+		return nil
+	}
+	// vxKeyInt64(name, hash, mods...): a symbolic int64 key; the hash the model assigns to it is
+	// recorded as input "hash:<name>" so that native replay can pick a concrete key whose real
+	// hash has the same residues modulo mods
+	vxAPI["vxKeyInt64"] = func(ex *Exec, fr *Frame, fn *ssa.Function, args []Value, site ssa.Instruction) Value {
+		name := argString(ex, args[0])
+		k := ex.inputInt(name, "int64", intInfo{64, true})
+		h := ex.callValue(fr, args[1], []Value{k}, site)
+		ht, ok := h.(*Term)
+		if !ok {
+			ex.unsupported("vxKeyInt64: hash callback did not return an integer")
+		}
+		hv := ex.ts.Var("in:hash:"+name, ht.Sort)
+		ex.declareInput("hash:"+name, "uint64", hv)
+		ex.assertPC(ex.ts.Eq(hv, ht))
+		return k
+	}
+}
+
+// coalesceLE64 replaces eight consecutive bytes that are the little-endian bytes of one 64-bit
+// term by that term (a bijective re-encoding of the hashed sequence: equal sequences still
+// correspond to equal argument lists and vice versa).
+func coalesceLE64(args []*Term) []*Term {
+	var out []*Term
+	for i := 0; i < len(args); {
+		if i+8 <= len(args) {
+			var x *Term
+			ok := true
+			for j := 0; j < 8 && ok; j++ {
+				a := args[i+j]
+				if a.Op != "extract" || a.P1 != 8*j+7 || a.P2 != 8*j || a.Args[0].Sort.W != 64 {
+					ok = false
+					break
+				}
+				if x == nil {
+					x = a.Args[0]
+				} else if x != a.Args[0] {
+					ok = false
+				}
+			}
+			if ok && x != nil {
+				out = append(out, x)
+				i += 8
+				continue
+			}
+		}
+		out = append(out, args[i])
+		i++
+	}
+	return out
 }
